@@ -120,9 +120,30 @@ impl Scenario for C03Key {
             // derive some keys from earlier ones: same parts other path, permuted labels, one change
             if i > 0 && r.chance(600) {
                 let mut s = keys[r.below(i as u64) as usize].clone();
-                match r.below(4) {
+                match r.below(6) {
                     0 => {}
                     1 => r.shuffle(&mut s.labels),
+                    4 | 5 => {
+                        // re-interleave the labels keeping the relative order of same-named ones:
+                        // the result is an equal key (also with repeated label names)
+                        let mut groups: Vec<Vec<(usize, usize)>> = vec![vec![]; LKEYS.len()];
+                        for l in &s.labels {
+                            groups[l.0].push(*l);
+                        }
+                        for g in groups.iter_mut() {
+                            g.reverse();
+                        }
+                        let mut out = vec![];
+                        loop {
+                            let live: Vec<usize> = (0..groups.len()).filter(|i| !groups[*i].is_empty()).collect();
+                            if live.is_empty() {
+                                break;
+                            }
+                            let g = *r.pick(&live);
+                            out.push(groups[g].pop().unwrap());
+                        }
+                        s.labels = out;
+                    }
                     2 => {
                         if !s.labels.is_empty() {
                             let j = r.below(s.labels.len() as u64) as usize;
@@ -137,7 +158,7 @@ impl Scenario for C03Key {
                 keys.push(s);
                 continue;
             }
-            let n = *r.pick(&[0usize, 1, 2, 2, 2, 3, 3, 4, 7, 8, 9, 16]);
+            let n = *r.pick(&[0usize, 1, 2, 2, 2, 3, 3, 4, 7, 8, 9, 16, 21, 24, 33, 48]);
             let distinct = r.chance(400);
             let mut labels = vec![];
             for j in 0..n {
@@ -273,6 +294,17 @@ impl Scenario for C03Key {
                         if la == lb && !eq {
                             bad = Some(("permutation-not-equal".into(), format!("{} vs {} differ only in label order (distinct label names)", desc(a), desc(b))));
                         }
+                    }
+                    // same label sequence per label name (any interleaving of different names) => equal
+                    let per_name = |s: &KeySpec| -> Vec<Vec<usize>> {
+                        let mut g: Vec<Vec<usize>> = vec![vec![]; LKEYS.len()];
+                        for l in &s.labels {
+                            g[l.0].push(l.1);
+                        }
+                        g
+                    };
+                    if sa.name == sb.name && sa.labels.len() != 2 && per_name(sa) == per_name(sb) && !eq {
+                        bad = Some(("interleaving-not-equal".into(), format!("{} vs {} list the same values per label name in the same order", desc(a), desc(b))));
                     }
                     // sanity in the other direction: different names / label multisets are never equal
                     let mut la = sa.labels.clone();
